@@ -106,7 +106,8 @@ def gen_case(rng, tier="quick"):
                                               "param_table",
                                               "open_params",
                                               "guess_parameters",
-                                              "td_interleaved"]),
+                                              "td_interleaved",
+                                              "param_system_two_dt"]),
                         rng.randrange(3), rng.randrange(1, 4)])
             continue
         if k == "new_corr":
@@ -925,6 +926,43 @@ def _run_case(case, dec, pristine):
                             start_time=0.1 * dti, subdiv_limit=None,
                             progress_type="silent").states
                     got, want = run(mk_shared("td", mk)), run(mk())
+                elif what == "param_system_two_dt":
+                    # one parameterized system in gradient computations with
+                    # different time steps (a convergence check in dt) and a
+                    # repeated row of parameters
+                    need_bath()
+                    b = baths[0]
+                    tol = 1e-6
+
+                    def hamp(x, y):
+                        return 0.5 * x * o["x"] + 0.5 * y * o["z"]
+
+                    def pt_for(d):
+                        tp = oqupy.TempoParameters(dt=d, epsrel=EPSREL,
+                                                   dkmax=2)
+                        return oqupy.pt_tempo_compute(
+                            fresh_bath(b), 0.0, 2.5 * d, tp,
+                            progress_type="silent")
+                    table = np.array([[1.0, 0.4], [1.0, 0.4], [0.8, 0.3],
+                                      [1.0, 0.4]])
+
+                    def run(sy, d):
+                        res = oqupy.state_gradient(
+                            system=sy, initial_state=np.array(RHO0),
+                            target_derivative=np.array(RHO0.T * 0.7),
+                            process_tensors=[pt_for(d)],
+                            parameters=np.array(table),
+                            progress_type="silent")
+                        return np.concatenate([
+                            np.array(res["gradient"]).ravel(),
+                            np.array(res["final_state"]).ravel()])
+                    psys2 = mk_shared("psys2", lambda:
+                                      oqupy.ParameterizedSystem(hamp))
+                    d_now = [0.05, 0.1, 0.2][dti]
+                    d_other = [0.05, 0.1, 0.2][(dti + steps) % 3]
+                    run(psys2, d_other)
+                    got = run(psys2, d_now)
+                    want = run(oqupy.ParameterizedSystem(hamp), d_now)
                 elif what == "td_interleaved":
                     # two computations built from one time-dependent system
                     # are alive at the same time and advance alternately
